@@ -23,8 +23,10 @@ def check(prog, ctx):
     ctx.rule('C19.d', 'Workload_Distribution: the closed form of the returned index list (from the loop summaries) has workers+1 entries, starts '
              'at 0, ends at tasks, is non-decreasing and its consecutive differences differ by at most one - on the complete domain '
              '1<=workers<=128, 0<=tasks<=1024', 1)
-    ctx.rule('C19.e', 'Range(min,max,step) enumerates min, min+-step, ... strictly before max: ascending with i<max, and descending with i>max '
-             'exactly when min>max and step>0; Range(max) = Range(0,max,1)', 4)
+    ctx.rule('C19.e', 'Range(min,max,step) enumerates min, min+-step, ... strictly before max, descending exactly when min>max: the summary of the '
+             'returned list (element k and length as terms in min,max,step; a strided loop has ceil(|max-min|/step) iterations) equals the stated '
+             'half-open range on the complete domain min,max in [-40,40], step 1..40; when no closed form is obtained, the two enumeration loops are '
+             'checked by shape (ascending with i<max, descending with i>max exactly when min>max and step>0); Range(max) = Range(0,max,1)', 2)
     ctx.rule('C19.f', 'Locate_Closest_Location: with u = upper_bound position in the sorted list the function returns 0 for u=0, size-1 for u=size, '
              'and otherwise whichever of u-1, u is nearer to the target (either on a tie); unsorted input is rejected', 2)
     ctx.sub('grids', grids, prog, ctx)
@@ -558,7 +560,7 @@ def range_closed_form(prog, ctx, fn):
     import numpy as np
     from ..symx import strict_ranges
     R = 'C19.e'
-    sx = Symx(prog, fn)
+    sx = Symx(prog, fn, inline={fn.q})       # a branch may be written through the function itself (reversed ascending range)
     mn, mx, stp = (sx.symbol(p_['name'], p_['ty']) for p_ in fn.params)
     k = Symbol('k', integer=True)
     try:
